@@ -22,8 +22,7 @@ def doc(body, prolog="", decl='<?xml version="1.0"?>'):
 
 
 def inp(name, xsl, xml, f=None, sorted_xml=None, sparam=("ps", "sv"), nparam=("pn", "2.5"), extra=None, ctl=()):
-    """ctl: the control experiments this input carries (see Trace_C05.tla): "nsaxis" -> in_xmlnsxml.xml, "dtd" -> in_nodtd.xml,
-    "cdataelems" -> main_nocdata.xsl + in_nocdata.xml (the PI pointing to it)"""
+    """ctl: the control experiments this input carries (see Trace_C05.tla): "nsaxis" -> in_xmlnsxml.xml, "dtd" -> in_nodtd.xml"""
     files = {"main.xsl": xsl, "in.xml": xml}
     if sorted_xml is not None:
         files["in_sorted.xml"] = sorted_xml
@@ -109,12 +108,8 @@ def handmade():
             ("out-xml-cdata-elements", '<xsl:output method="xml" cdata-section-elements="p q"/>', feat())]:
         # a character the encoding cannot represent inside a comment is C04's subject (finding: written as &#233;), not repeated here
         body = BODY.replace("<xsl:comment>cé</xsl:comment>", "<xsl:comment>ce</xsl:comment>") if name == "out-xml-ascii" else BODY
-        if name == "out-xml-cdata-elements":
-            nocd = ss(body, top='<xsl:output method="xml"/>')
-            L.append(inp(name, ss(body, top=out), doc(DOC_MIXED), f=f, ctl=["cdataelems"],
-                         extra={"main_nocdata.xsl": nocd, "in_nocdata.xml": doc(DOC_MIXED).replace('href="main.xsl"', 'href="main_nocdata.xsl"')}))
-        else:
-            L.append(inp(name, ss(body, top=out), doc(DOC_MIXED), f=f))
+        # (out-xml-cdata-elements: the text of p and q reaches FormatterListener::cdata(); the source-tree target used to drop it)
+        L.append(inp(name, ss(body, top=out), doc(DOC_MIXED), f=f))
     HTML = ('<xsl:template match="/"><html><body class="c"><p id="p1">café &lt;&amp;&gt; text<br/>more</p><hr/><img src="a.png" alt="x"/><ul><xsl:for-each select="//b"><li><xsl:value-of select="."/></li></xsl:for-each></ul>'
             '<xsl:comment>note</xsl:comment><div title="a&amp;b"><span/>tail</div></body></html></xsl:template>')
     L.append(inp("out-html-utf8", ss(HTML, top='<xsl:output method="html" indent="no" encoding="UTF-8"/>'), doc(DOC_MIXED), f=feat("html")))
